@@ -1,7 +1,7 @@
 From Coq Require Import ZArith List Bool.
 From RV Require Import Base.Wire Base.Text Lang.Escape Lang.Sections.
 From RV Require Lang.StmtAst Lang.Transl Lang.Scope Wire.C01_stmtW.
-From RV Require Lang.Headers Lang.FnSelect.
+From RV Require Lang.Headers Lang.FnSelect Lang.EmitScope.
 Import ListNotations.
 Open Scope Z_scope.
 
@@ -26,7 +26,20 @@ Open Scope Z_scope.
      (7 fns)          -> the function-selection loop of parse() (Lang.FnSelect):
                          fns = ((name variants used aliases primaryopt) ...), a signature = list of labels,
                          label = 0 int 1 float 2 bool 3 String 4 void | (5 label) list | (6 code) other
-                         -> (0 selected no_redefinition)   selected = ((name sig) ...) *)
+                         -> (0 selected no_redefinition)   selected = ((name sig) ...)
+     (8 params toks)  -> C++ block scoping (Lang.EmitScope.scan) of one function read from the real text:
+                         tok = (0 (header names)) block opens | (1) block closes | (2 name) declaration; names are texts
+                         -> (0 fn_ok first_redeclared_name)      (name empty when there is none)
+     (9 lcds buttons setup loop fns)  -> the emitter's block structure (Lang.EmitScope.emit_program) for the IR of one program:
+                         lcds / buttons = names registered by emit()'s first pass, fns = (((params) nodes) ...),
+                         node = (0) plain | (1 x) local VarDecl | (2 (names)) block opens | (3) closes | (4 b) ButtonPoll
+                              | (5 l) LCDDecl | (6 l) LCDGlyph | (10) ServoWrite (11) ServoWriteMicroseconds (12) DCMotorSetSpeed
+                              (13) Backward (14) Invert (15) Ramp (16) RunFor (17) RGBLed set_color/on/off (18) LedSetBrightness
+                              (19) LedBlink (20) RGBLedFade (21) RGBLedBlink (22) LedFadeIn/Out (23 empty) LedFlashPattern
+                              (24 d) BuzzerPlayTone d = 0 no duration 1 literal 2 expression (25 on_lit off_lit) BuzzerBeep
+                              (26 lit) BuzzerSweep (27 known) BuzzerMelody
+                         -> (0 (toks ok user_ok) (toks ok user_ok) ((toks ok user_ok) ...))  for setup, loop, the functions;
+                            toks rendered as in op 8 (function bodies without their parameters) *)
 
 Definition un_body (v : wv) : option body :=
   match v with
@@ -133,6 +146,65 @@ Definition un_fentry (v : wv) : option (Z * FnSelect.fentry) :=
   | _ => None
   end.
 
+
+
+Definition un_tok (v : wv) : option EmitScope.tok :=
+  match v with
+  | WL [WI 0; h] => option_map (fun l => EmitScope.TOpen (map EmitScope.CUser l)) (un_list un_text h)
+  | WL [WI 1] => Some EmitScope.TClose
+  | WL [WI 2; x] => option_map (fun t => EmitScope.TDecl (EmitScope.CUser t)) (un_text x)
+  | _ => None
+  end.
+
+Definition un_dur (v : wv) : option EmitScope.dur :=
+  match v with WI 0 => Some EmitScope.DNone | WI 1 => Some EmitScope.DLit | WI 2 => Some EmitScope.DExpr | _ => None end.
+
+Definition un_node (v : wv) : option EmitScope.node :=
+  match v with
+  | WL [WI 0] => Some EmitScope.NPlain
+  | WL [WI 1; x] => option_map EmitScope.NVarDecl (un_text x)
+  | WL [WI 2; h] => option_map EmitScope.NOpen (un_list un_text h)
+  | WL [WI 3] => Some EmitScope.NClose
+  | WL [WI 4; b] => option_map EmitScope.NButtonPoll (un_text b)
+  | WL [WI 5; l] => option_map EmitScope.NLcdDecl (un_text l)
+  | WL [WI 6; l] => option_map EmitScope.NGlyph (un_text l)
+  | WL [WI 10] => Some EmitScope.NServoWrite
+  | WL [WI 11] => Some EmitScope.NServoWriteUs
+  | WL [WI 12] => Some EmitScope.NMotorSetSpeed
+  | WL [WI 13] => Some EmitScope.NMotorBackward
+  | WL [WI 14] => Some EmitScope.NMotorInvert
+  | WL [WI 15] => Some EmitScope.NMotorRamp
+  | WL [WI 16] => Some EmitScope.NMotorRunFor
+  | WL [WI 17] => Some EmitScope.NRgbUpdate
+  | WL [WI 18] => Some EmitScope.NLedSetBrightness
+  | WL [WI 19] => Some EmitScope.NLedBlink
+  | WL [WI 20] => Some EmitScope.NRgbFade
+  | WL [WI 21] => Some EmitScope.NRgbBlink
+  | WL [WI 22] => Some EmitScope.NLedFade
+  | WL [WI 23; e] => option_map EmitScope.NLedFlash (un_bool e)
+  | WL [WI 24; x] => option_map EmitScope.NBuzzerPlayTone (un_dur x)
+  | WL [WI 25; a; b] => match un_bool a, un_bool b with Some x, Some y => Some (EmitScope.NBuzzerBeep x y) | _, _ => None end
+  | WL [WI 26; a] => option_map EmitScope.NBuzzerSweep (un_bool a)
+  | WL [WI 27; k] => option_map EmitScope.NBuzzerMelody (un_bool k)
+  | _ => None
+  end.
+
+Definition un_fn (v : wv) : option (list text * list EmitScope.node) :=
+  match v with
+  | WL [ps; ns] => match un_list un_text ps, un_list un_node ns with Some a, Some b => Some (a, b) | _, _ => None end
+  | _ => None
+  end.
+
+Definition enc_tok (t : EmitScope.tok) : wv :=
+  match t with
+  | EmitScope.TOpen h => WL [WI 0; WL (map (fun n => wtext (EmitScope.render n)) h)]
+  | EmitScope.TClose => WL [WI 1]
+  | EmitScope.TDecl x => WL [WI 2; wtext (EmitScope.render x)]
+  end.
+
+Definition enc_body (params : list EmitScope.cname) (toks utoks : list EmitScope.tok) : wv :=
+  WL [WL (map enc_tok toks); wbool (EmitScope.fn_ok params toks); wbool (EmitScope.fn_ok params utoks)].
+
 Definition run (v : wv) : wv :=
   match v with
   | WL [WI 0; s] =>
@@ -199,6 +271,23 @@ Definition run (v : wv) : wv :=
           wok [ WL (map (fun ns => WL [WI (fst ns); WL (map enc_lbl (snd ns))]) (FnSelect.select l));
                 wbool (FnSelect.no_redefinition (FnSelect.cpp_defs l)) ]
       | None => wbad
+      end
+  | WL [WI 8; ps; ts] =>
+      match un_list un_text ps, un_list un_tok ts with
+      | Some p, Some l =>
+          wok [ wbool (EmitScope.fn_ok (map EmitScope.CUser p) l);
+                match EmitScope.first_redecl [map EmitScope.CUser p] l with Some n => wtext (EmitScope.render n) | None => wtext [] end ]
+      | _, _ => wbad
+      end
+  | WL [WI 9; ls; bs; su; lo; fs] =>
+      match un_list un_text ls, un_list un_text bs, un_list un_node su, un_list un_node lo, un_list un_fn fs with
+      | Some lcds, Some btns, Some setup, Some loop, Some fns =>
+          let st := {| EmitScope.e_lcds := lcds; EmitScope.e_buttons := btns; EmitScope.e_glyph := [] |} in
+          let '(ts, tl, tf) := EmitScope.emit_program st setup loop fns in
+          wok [ enc_body [] ts (EmitScope.user_proj st setup); enc_body [] tl (EmitScope.user_proj st loop);
+                WL (map (fun pf => enc_body (map EmitScope.CUser (fst (fst pf))) (snd (snd pf)) (EmitScope.user_proj st (snd (fst pf))))
+                        (combine fns tf)) ]
+      | _, _, _, _, _ => wbad
       end
   | _ => wbad
   end.
